@@ -33,7 +33,7 @@ I32, I64, U64 = INTS["int"], INTS["long"], INTS["unsigned long"]
 MS = Ty("dur", num=1, den=1000)
 TPNS = Ty("tp", num=1, den=1000000000)
 
-DROP_TYPES = ("pollfd", "pollfd *", "struct pollfd")
+DROP_TYPES = ("pollfd", "pollfd *", "struct pollfd", "std::promise<void>", "std::future<void>")
 
 
 def ptype(t):
@@ -148,6 +148,23 @@ def EFF_SPECS():
         Spec("SendSome", "socket_impl.cpp", "sockpuppet::SendSome", "SendSome",
              [("fd", D), ("data", "ptr"), ("size", U64), ("deadline", "obj")], U64,
              needs=("DeadlineLimited_Remaining", "DeadlineLimited_TimeLeft"), objcls="DeadlineLimited"),
+        # SocketAsyncImpl::DriverSend / DriverSendTo over the abstract queue / promise / buffer / socket interface
+        Spec("DriverSend", "socket_async_impl.cpp", "SocketAsyncImpl::DriverSend", "DriverSend", [("q", "queue")], BOOL,
+             world="QueueWorld"),
+        Spec("DriverSendTo", "socket_async_impl.cpp", "SocketAsyncImpl::DriverSend", "DriverSendTo", [("q", "queue")], BOOL,
+             world="QueueWorld"),
+        # the enqueue side: SocketAsyncImpl::Send / SendTo -> DoSend<Queue> -> DoSendEnqueue<Queue> (instantiations told
+        # apart by their number of parameters)
+        Spec("DoSendEnqueue_Tcp", "socket_async_impl.cpp", "SocketAsyncImpl::DoSend", "DoSendEnqueue",
+             [("promise", D), ("args", D)], BOOL, world="QueueWorld"),
+        Spec("DoSendEnqueue_Udp", "socket_async_impl.cpp", "SocketAsyncImpl::DoSend", "DoSendEnqueue",
+             [("promise", D), ("args", D), ("args", D)], BOOL, world="QueueWorld"),
+        Spec("DoSend_Tcp", "socket_async_impl.cpp", "SocketAsyncImpl::DoSend", "DoSend", [("args", D)], VOID, world="QueueWorld"),
+        Spec("DoSend_Udp", "socket_async_impl.cpp", "SocketAsyncImpl::DoSend", "DoSend", [("args", D), ("args", D)], VOID,
+             world="QueueWorld"),
+        Spec("AsyncSend", "socket_async_impl.cpp", "SocketAsyncImpl::Send", "Send", [("buffer", D)], VOID, world="QueueWorld"),
+        Spec("AsyncSendTo", "socket_async_impl.cpp", "SocketAsyncImpl::Send", "SendTo", [("buffer", D), ("dstAddr", D)], VOID,
+             world="QueueWorld"),
         # Driver::DriverImpl::StepTodos<Deadline>, one definition per instantiation, over the abstract deque / task
         # interface `TodoWorld`
         Spec("StepTodos_Unlimited", "driver_impl.cpp", "DriverImpl::Step", "StepTodos", [("deadline", "obj")], MS,
@@ -160,6 +177,30 @@ def EFF_SPECS():
              needs=("MinDuration", "DeadlineLimited_Remaining", "DeadlineLimited_TimeLeft"), world="TodoWorld",
              objcls="DeadlineLimited", targ="DeadlineLimited"),
     ]
+
+
+# the abstract queue / promise / buffer / socket interface of SocketAsyncImpl::DriverSend(To) (functions with
+# `world="QueueWorld"`): canonical text of the CALLEE -> (field, result type, argument patterns, provenance).
+# An argument pattern is a canonical text the argument must have (it only travels to the call) or a type (the
+# argument is translated and passed on).  Provenance: the structured binding `auto &&[promise, buffer(, addr)] =
+# q.front()` - the names must be bindings number 0, 1, 2 of exactly that declaration.
+QUEUE_WORLD = {
+    "q.size": ("qSize", U64, []),
+    "q.empty": ("qEmpty", BOOL, []),
+    "q.pop": ("qPop", VOID, []),
+    "buffer->size": ("bufferSize", U64, []),
+    "buffer->erase": ("bufferErase", VOID, ["0", U64]),
+    "promise.set_value": ("promiseSetValue", VOID, []),
+    "promise.set_exception": ("promiseSetException", VOID, ["make_exception_ptr(e)"]),
+    "buff->sock->SendSome": ("sockSendSome", U64, ["buffer->data()", U64]),
+    "buff->sock->SendTo": ("sockSendTo", U64, ["buffer->data()", U64, "addr->ForUdp()"]),
+    "buff->sock->DriverPending": ("sockDriverPending", VOID, []),
+    # the enqueue side (`SocketAsyncImpl::DoSend` / `DoSendEnqueue`)
+    "q.emplace": ("qEmplace", VOID, None),                     # the arguments (promise, buffer[, address]) only travel
+    "ptr->AsyncWantSend": ("driverAsyncWantSend", VOID, ["buff->sock->fd"]),
+}
+QUEUE_BINDINGS = {"promise": 0, "buffer": 1, "addr": 2}
+CATCHABLE = {"std::runtime_error": "runtime_error", "std::logic_error": "logic_error", "std::system_error": "system_error"}
 
 
 class SvVal:
@@ -197,6 +238,7 @@ class EFn(C.Fn):
         self.nloops = 0
         self.params_lean = []             # [(lean name, lean type)] of the function itself
         self.depends = set()
+        self.locked = False
         self.cur_pad = "  "
         self.wbase = "W" if spec.world == "World" else "W.toWorld"
 
@@ -218,6 +260,14 @@ class EFn(C.Fn):
     # ---- classification of calls ----------------------------------------
     def call_target(self, n):
         """('world', field, kinds, ret) | ('eff', spec) | ('pure', gen, types, ret) | None"""
+        if n["kind"] == "CXXMemberCallExpr":
+            # a call of another member function of the same object (`this->` implicit)
+            me = kids(n)[0]
+            if me.get("kind") == "MemberExpr" and kids(me) and C._strip(kids(me)[0]).get("kind") == "CXXThisExpr":
+                key = (me.get("name"), len(kids(n)) - 1)
+                if key in self.specs and self.specs[key].world == self.spec_e.world:
+                    return ("eff", self.specs[key])
+            return None
         if n["kind"] != "CallExpr":
             return None
         try:
@@ -237,8 +287,12 @@ class EFn(C.Fn):
         return None
 
     def todo_call(self, n):
-        """(field, type) when n is one of the abstract deque / task operations of a TodoWorld function"""
-        if self.spec_e.world != "TodoWorld" or n.get("kind") not in ("MemberExpr", "CXXMemberCallExpr", "CXXOperatorCallExpr"):
+        """(field, type[, argument nodes]) when n is one of the abstract operations of a TodoWorld / QueueWorld function"""
+        if n.get("kind") not in ("MemberExpr", "CXXMemberCallExpr", "CXXOperatorCallExpr"):
+            return None
+        if self.spec_e.world == "QueueWorld":
+            return self.queue_call(n)
+        if self.spec_e.world != "TodoWorld":
             return None
         try:
             t = TODO_WORLD.get(C.canon(n))
@@ -254,6 +308,51 @@ class EFn(C.Fn):
                 return None
         return field, ty
 
+    def queue_call(self, n):
+        if n.get("kind") != "CXXMemberCallExpr":
+            return None
+        ks = kids(n)
+        try:
+            callee = C.canon(ks[0])
+        except Exception:
+            return None
+        t = QUEUE_WORLD.get(callee)
+        if not t:
+            return None
+        field, ty, pats = t
+        args = [a for a in ks[1:] if a["kind"] != "CXXDefaultArgExpr"]
+        if pats is None:
+            if any(self.is_eff(a) for a in args):
+                return None
+            args, pats = [], []
+        if len(args) != len(pats):
+            return None
+        passed = []
+        for a, pat in zip(args, pats):
+            if isinstance(pat, str):
+                try:
+                    if C.canon(a) != pat:
+                        return None
+                except Exception:
+                    return None
+            else:
+                passed.append((a, pat))
+        # provenance of the names the canonical text mentions
+        for x in walk(n):
+            if x.get("kind") == "DeclRefExpr":
+                rd = x.get("referencedDecl", {})
+                nm = rd.get("name")
+                if nm in QUEUE_BINDINGS and callee != "q.emplace" and \
+                        self.env.get(rd.get("id")) != ("binding", QUEUE_BINDINGS[nm]):
+                    return None
+                if nm == "q" and self.env.get(rd.get("id")) != "queue":
+                    return None
+                if nm == "ptr" and self.env.get(rd.get("id")) != "driverptr":
+                    return None
+                if nm == "e" and self.env.get(rd.get("id")) != "caught":
+                    return None
+        return field, ty, passed
+
     def is_eff(self, n):
         for x in walk(n):
             if self.todo_call(x):
@@ -261,7 +360,7 @@ class EFn(C.Fn):
             k = x.get("kind")
             if k == "CXXThrowExpr":
                 return True
-            if k == "CallExpr":
+            if k in ("CallExpr", "CXXMemberCallExpr"):
                 t = self.call_target(x)
                 if t and t[0] in ("world", "eff"):
                     return True
@@ -277,7 +376,7 @@ class EFn(C.Fn):
             fail("reference to %s `%s` is outside the subset" % (rd.get("kind"), rd.get("name")))
         if b == "uninit":
             fail("`%s` is read before it is assigned" % rd.get("name"))
-        if b in ("drop", "frontref", "taskref"):
+        if b in ("drop", "frontref", "taskref", "queue", "caught", "driverptr") or isinstance(b, tuple):
             fail("`%s` (a handle that is not modelled) is used as a value" % rd.get("name"))
         return b
 
@@ -368,9 +467,29 @@ class EFn(C.Fn):
         ks = kids(n)
         tc = self.todo_call(n)
         if tc:
-            r = self.fresh("r")
-            res = Val("()", VOID) if tc[1] == VOID else Val(r, tc[1])
-            return "%sM.bind (W.%s) fun %s =>\n%s" % (self.cur_pad, tc[0], "_" if tc[1] == VOID else r, k(res))
+            passed = tc[2] if len(tc) > 2 else []
+            if sum(1 for a, _ in passed if self.is_eff(a)) > 1:
+                fail("more than one effectful argument: the order of evaluation is unspecified")
+            vals = []
+
+            def go(i):
+                if i == len(passed):
+                    r = self.fresh("r")
+                    res = Val("()", VOID) if tc[1] == VOID else Val(r, tc[1])
+                    return "%sM.bind (%s) fun %s =>\n%s" % (self.cur_pad, " ".join(["W.%s" % tc[0]] + vals),
+                                                            "_" if tc[1] == VOID else r, k(res))
+                a, want = passed[i]
+
+                def got(v):
+                    if v.ty != want:
+                        if want.kind == "int" and v.ty.kind == "int":
+                            v = convert(v, want)
+                        else:
+                            fail("argument of %s has type %r, expected %r" % (tc[0], v.ty, want))
+                    vals.append(v.s if v.s.startswith("(") or re.match(r"^\w+$", v.s) else "(%s)" % v.s)
+                    return go(i + 1)
+                return self.ex(a, got)
+            return go(0)
         if kind == "CXXOperatorCallExpr" and len(ks) == 3:
             # chrono operator with one effectful operand: bind it, rebuild the operator on pure values
             a1, a2 = ks[1], ks[2]
@@ -440,7 +559,7 @@ class EFn(C.Fn):
                 self.env["tmp:" + holder] = v
                 return k(self.expr(n2))
             return self.ex(ks[idx], with_val)
-        if kind == "CallExpr":
+        if kind == "CallExpr" or (kind == "CXXMemberCallExpr" and self.call_target(n)):
             t = self.call_target(n)
             if t is None:
                 name = None
@@ -549,15 +668,33 @@ class EFn(C.Fn):
         if k in C.STRIP and C._strip(s)["kind"] == "CXXThrowExpr" or k == "CXXThrowExpr":
             return self.throw(C._strip(s), pad)
         if k == "ReturnStmt":
-            if not kids(s):
-                return pad + "M.pure ()"
-            return self.ex(kids(s)[0], lambda v: pad + "M.pure (%s)" % self.ret_val(v))
+            wrap = "(some %s)" if ctx.get("in_try") else "(%s)"
+            unl = ("%sM.bind (W.unlock) fun _ =>\n" % pad) if self.locked else ""       # ~lock_guard after the value is computed
+            def dropped_local(e):
+                e = C._strip(e)
+                while e["kind"] in ("ImplicitCastExpr", "CXXConstructExpr") and len(kids(e)) == 1:
+                    e = C._strip(kids(e)[0])
+                return e["kind"] == "DeclRefExpr" and self.env.get(e.get("referencedDecl", {}).get("id")) == "drop"
+            if not kids(s) or (self.spec_e.ret == VOID and dropped_local(kids(s)[0])):
+                return unl + pad + "M.pure " + (wrap % "()")
+            return self.ex(kids(s)[0], lambda v: unl + pad + "M.pure " + (wrap % self.ret_val(v)))
+        if k == "CXXTryStmt":
+            return self.try_(s, rest, ctx, ind)
         if k == "BreakStmt":
             return ctx["brk"](ind) if ctx.get("brk") else fail("break outside a loop")
         if k == "ContinueStmt":
             return ctx["cont"](ind) if ctx.get("cont") else fail("continue outside a loop")
         if k == "DeclStmt":
             ds = kids(s)
+            if len(ds) == 1 and ds[0]["kind"] == "DecompositionDecl" and self.spec_e.world == "QueueWorld":
+                dk = kids(ds[0])
+                if not dk or C.canon(dk[0]) != "q.front()" or "&" not in ((ds[0].get("type") or {}).get("qualType") or "") \
+                        or any(self.env.get(x.get("referencedDecl", {}).get("id")) != "queue" for x in walk(dk[0])
+                               if x.get("kind") == "DeclRefExpr" and x.get("referencedDecl", {}).get("name") == "q"):
+                    fail("structured binding is not `auto &&[..] = q.front()`")
+                for i, b in enumerate(x for x in dk[1:] if x["kind"] == "BindingDecl"):
+                    self.env[b["id"]] = ("binding", i)     # a reference to field i of the front element: nothing happens
+                return nxt()
             if len(ds) != 1 or ds[0]["kind"] != "VarDecl":
                 fail("declaration statement is not one variable")
             return self.decl(ds[0], nxt, pad)
@@ -565,6 +702,15 @@ class EFn(C.Fn):
             if s.get("hasInit"):
                 fail("if with init-statement")
             parts = kids(s)
+            if s.get("hasVar") and self.spec_e.world == "QueueWorld" and kids(kids(parts[0])[0]) and \
+                    C.canon(kids(kids(parts[0])[0])[-1]) == "driver.lock()":
+                dv = kids(parts[0])[0]
+                self.env[dv["id"]] = "driverptr"
+                bname = self.fresh("alive")
+                fake = {"kind": "DeclRefExpr", "referencedDecl": {"id": "tmp:" + bname, "kind": "VarDecl", "name": bname},
+                        "type": {"qualType": "bool"}}
+                self.env["tmp:" + bname] = Val(bname, BOOL)
+                return "%sM.bind (W.driverLock) fun %s =>\n%s" % (pad, bname, self.if_(fake, parts[2], parts[3:], rest, ctx, ind))
             if s.get("hasVar"):
                 dv = kids(parts[0])[0]
                 return self.decl(dv, lambda: self.if_(parts[1], parts[2], parts[3:], rest, ctx, ind), pad)
@@ -603,6 +749,36 @@ class EFn(C.Fn):
             return self.ex(e, lambda v: nxt())
         fail("statement kind %s is outside the subset" % k)
 
+    def try_(self, s, rest, ctx, ind):
+        """`try B catch(X const &e) H` rest: B and H yield `some v` when they `return v` and `none` when they fall
+        through; the statements after the try are NOT inside it.  Neither B nor H may assign a local of the function."""
+        pad = "  " * ind
+        parts = kids(s)
+        if len(parts) != 2 or parts[1]["kind"] != "CXXCatchStmt" or ctx.get("in_try") or ctx.get("brk") or ctx.get("cont"):
+            fail("try statement outside the subset (one handler, not nested, not inside a loop)")
+        body, handler = parts
+        hk = kids(handler)
+        if len(hk) != 2 or hk[0]["kind"] != "VarDecl":
+            fail("catch(...) / handler shape")
+        cls = re.sub(r"^const\s+", "", re.sub(r"\s*&$", "", ((hk[0].get("type") or {}).get("qualType") or ""))).strip()
+        if cls not in CATCHABLE:
+            fail("catch of `%s`" % cls)
+        if self.mutated(body) or self.mutated(hk[1]):
+            fail("the try block or its handler assigns a local")
+        inner = {"end": (lambda i2: "  " * i2 + "M.pure none"), "in_try": True}
+        saved = dict(self.env)
+        btxt = self.st([body], inner, ind + 2)
+        self.env = dict(saved)
+        self.env[hk[0]["id"]] = "caught"
+        htxt = self.st([hk[1]], inner, ind + 2)
+        self.env = saved
+        o = self.fresh("o")
+        v = self.fresh("v")
+        after = self.st(rest, ctx, ind + 1)
+        wrap = "(some %s)" if ctx.get("in_try") else "%s"
+        return ("%sM.bind (M.tryCatch .%s (\n%s)\n%s  (fun _ =>\n%s)) fun %s =>\n%smatch %s with\n%s| some %s => M.pure %s\n%s| none =>\n%s"
+                % (pad, CATCHABLE[cls], btxt, pad, htxt, o, pad, o, pad, v, wrap % v, pad, after))
+
     def if_(self, cond, then, els, rest, ctx, ind):
         pad = "  " * ind
 
@@ -617,8 +793,20 @@ class EFn(C.Fn):
 
     def decl(self, d, nxt, pad):
         t = ptype(d.get("type"))
-        inits = kids(d)
+        inits = [c for c in kids(d) if not c["kind"].endswith("Attr")]      # [[maybe_unused]] and the like
         did = d["id"]
+        if self.spec_e.world == "QueueWorld":
+            ty = re.sub(r"^const\s+", "", ((d.get("type") or {}).get("qualType") or ""))
+            txt = C.canon(inits[-1]) if inits else ""
+            if ty == "std::lock_guard<std::mutex>" and txt == "lock_guard(sendQMtx)":
+                if self.locked or self.scope_depth != 0:
+                    fail("lock_guard that is not the function-level guard of sendQMtx")
+                self.locked = True            # every later `return` unlocks; a thrown exception is not followed
+                self.env[did] = "drop"
+                return "%sM.bind (W.lock) fun _ =>\n%s" % (pad, nxt())
+            if txt == "get(sendQ)" and "&" in ty:
+                self.env[did] = "queue"
+                return nxt()
         if self.spec_e.world == "TodoWorld" and inits:
             txt = C.canon(inits[-1])
             if txt == "todos.front()" and "&" in ((d.get("type") or {}).get("qualType") or ""):
@@ -893,6 +1081,7 @@ class EFn(C.Fn):
     def run(self, fn):
         self.env = {}
         self.cur_pad = "  "
+        self.scope_depth = 0
         self.env_tmp = {}
         self.decl_ty = {}
         self.bind_params(fn)
@@ -905,6 +1094,8 @@ class EFn(C.Fn):
             t = ptype(p.get("type"))
             if kind == "drop":
                 self.env[p["id"]] = "drop"
+            elif kind == "queue":
+                self.env[p["id"]] = "queue"
             elif kind == "ptr":
                 if t != PTR:
                     fail("parameter `%s` is not a char pointer" % cname)
@@ -999,7 +1190,10 @@ def find_eff_function(docs, spec):
     for d in docs:
         for x in walk(d):
             if x.get("kind") in ("FunctionDecl", "CXXMethodDecl") and x.get("name") == spec.cname and C.body_of(x) is not None:
-                if len([c for c in kids(x) if c["kind"] == "ParmVarDecl"]) == spec.nparams:
+                pv = [c for c in kids(x) if c["kind"] == "ParmVarDecl"]
+                if any("..." in ((c.get("type") or {}).get("qualType") or "") for c in pv):
+                    continue                 # the template pattern with a parameter pack, not an instantiation
+                if len(pv) == spec.nparams:
                     found[x.get("id")] = x
     if len(found) != 1:
         fail("expected exactly one definition of %s with %d parameters, found %d" % (spec.cname, spec.nparams, len(found)))
